@@ -372,6 +372,9 @@ def call_values(I, c, args, e=None, env=None):
         if gs:
             raise Undecided("product over a restricted range")
         return Num(Expr.atom(("prod", k, s_.classes[0], x.expr)))
+    if name == "next" and isinstance(args[0], Arr) and not isinstance(args[0], ListV):
+        I.assumptions.append("next(): the sequence is assumed non-empty")
+        return Opt(True, args[0].at("first"))
     if name == "count" and isinstance(args[0], Arr):
         return size_of(I, args[0])
     if name in ("rev", "rfold", "next_back", "skip", "step_by", "take", "chain", "filter", "flat_map", "take_while", "skip_while", "sorted"):
@@ -403,6 +406,10 @@ def exponent_of(n):
                 m = m * sp.Symbol(a[1], positive=True) ** x
             elif a[0] == "leaf" and len(a) == 2:
                 m = m * sp.Symbol(a[1], positive=True) ** x
+            elif a[0] == "pow":
+                m = m * exponent_of(Num(a[1])) ** x
+            elif a[0] == "call" and all(isinstance(z, str) for z in a[1:]):
+                m = m * sp.Symbol("%s(%s)" % (a[1], ",".join(a[2:])), positive=True) ** x
             else:
                 raise Undecided("exponent mentions %r" % (a,))
         total = total + m
